@@ -88,7 +88,7 @@ func flip(b []byte, bit int) []byte {
 
 func TestC07(t *testing.T) {
 	r := ev.Start("C07", "exploration")
-	r.Rule("a corpus of genuine records (payload sizes 0/1/16/100, two partitions, two key generations) is mutated systematically: EVERY single-bit flip of Data and of the encrypted data key, every truncation and several extensions of both, every ordered pair of records exchanging Data / encrypted key / parent key meta / created stamps, parent meta pointing at every other existing key (other generation, other partition, the SK id) with Created in {0, +-1, min, max}, nil Key / ParentKeyMeta / EncryptedKey / Data, random JSON documents through json.Unmarshal; corrupted metastore rows (every bit flip of IK and SK ciphertext on a cold factory, nil or mispointing ParentKeyMeta, wrong Created, missing row, row of another id); Session.Load with loaders returning (nil,nil), (nil,err) and mutated records. Oracle: error, or exactly the payload originally encrypted under the record the Data came from; never a panic (recover() per case, process death = violation). Distinct+non-trivial: distinct mutants that reached the AEAD.")
+	r.Rule("a corpus of genuine records (payload sizes 0/1/16/100, two partitions, two key generations) is mutated systematically: EVERY single-bit flip of Data and of the encrypted data key, every truncation and several extensions of both, every ordered pair of records exchanging Data / encrypted key / parent key meta / created stamps, parent meta pointing at every other existing key (other generation, other partition, the SK id) with Created in {0, +-1, min, max}, nil Key / ParentKeyMeta / EncryptedKey / Data, random JSON documents through json.Unmarshal; corrupted metastore rows (every bit flip of IK and SK ciphertext on a cold factory, nil or mispointing ParentKeyMeta, wrong Created, missing row, row of another id); Session.Load with loaders returning (nil,nil), (nil,err) and mutated records; storage-level corruption underneath the real plug-ins (DynamoDB items of the wrong shape/type behind both DynamoDB plug-ins, malformed key_record JSON behind the SQL plug-in) seen by cold cached/uncached factories. Oracle: error, or exactly the payload originally encrypted under the record the Data came from; never a panic (recover() per case, process death = violation). Distinct+non-trivial: distinct mutants that reached the AEAD.")
 	r.Assume("AES-GCM tag forgery probability 2^-128 per mutant is treated as impossible")
 	failed := false
 	defer func() {
@@ -286,6 +286,10 @@ func TestC07(t *testing.T) {
 
 		// 9. the same structural mutants against a region-suffixing metastore (suffixed partition id checks)
 		suffixedPass(r, rng)
+		synctest.Wait()
+
+		// 10. storage-level corruption underneath the real metastore plug-ins
+		storagePass(r)
 		synctest.Wait()
 	})
 	r.Exhaustive(true)
